@@ -38,8 +38,10 @@ def cases(seed, tier):
     out = []
     mspecs = uni.model_specs(rng, tier)
     for ms in mspecs:
-        for r in range(3 if tier == 'quick' else 200):
-            out.append({'mode': 'history', 'kind': 'univariate', 'model': ms, 'k': int(rng.integers(0, 4)),
+        # the iteratively fitted family (an optimiser with a starting point) gets more histories
+        iterative = ms['cls'] == 'TruncatedGaussian'
+        for r in range((8 if iterative else 3) if tier == 'quick' else 200):
+            out.append({'mode': 'history', 'kind': 'univariate', 'model': ms, 'k': int(rng.integers(1 if iterative else 0, 4)),
                         'seed': int(rng.integers(1 << 31))})
     for fam in biv.FAMILIES:
         for r in range(3 if tier == 'quick' else 200):
@@ -173,6 +175,14 @@ def _history_gaussian(spec, ctx):
     G = int(rng.integers(1 << 30))
     cfg_seed = int(rng.integers(1 << 30))
 
+    # the judged fit may get the same numbers as a bare array after labelled tables (labels then are 0..d-1)
+    as_array = spec['config'] != 'dict' and spec['seed'] % 3 == 0
+    where['final_fit_on_ndarray'] = as_array
+    final = df.to_numpy().copy() if as_array else df
+    if as_array:
+        import pandas as pd
+        df = pd.DataFrame(df.to_numpy())
+
     def fitted(history):
         m = mv.build_model(spec['config'], list(df.columns), rng_for(cfg_seed))
         for D in history:
@@ -183,7 +193,7 @@ def _history_gaussian(spec, ctx):
             except Exception:   # noqa: BLE001
                 pass
         np.random.seed(G)
-        m.fit(df.copy())
+        m.fit(final.copy())
         return m
     ok, ms_ = ctx.call(lambda: (fitted(prev), fitted([]), fitted([])))
     if not ok:
